@@ -48,7 +48,7 @@ TOp == Step(
      /\ f.st = "run"
      /\ Ev.depth = f.depth /\ Ev.pc = f.pc /\ Ev.opc = OpAt(f.code, f.pc)
      /\ Ev.gas = f.gas /\ Ev.stack = f.stack /\ Ev.msize = 32 * Len(f.mem)
-     /\ r.chk
+     /\ (faults \/ r.chk)
      /\ Ev.err = faults
      /\ (~faults => Ev.cost = r.cost)
      /\ m' = ExecR(m, r)
